@@ -174,6 +174,12 @@ where
     }
 
     fn compose(&self, other: &Self) -> Option<Self> {
+        #[cfg(feature = "verif-hooks")]
+        if crate::verif_trace::enabled() {
+            let r = self.compose(other);
+            crate::verif_trace::record_binary("strict.compose", self, other, r.as_ref(), true);
+            return r;
+        }
         self.compose(other)
     }
 }
@@ -242,6 +248,12 @@ where
 {
     type Output = Option<OpenHypergraph<K, O, A>>;
     fn shr(self, rhs: &OpenHypergraph<K, O, A>) -> Option<OpenHypergraph<K, O, A>> {
+        #[cfg(feature = "verif-hooks")]
+        if crate::verif_trace::enabled() {
+            let r = self.compose(rhs);
+            crate::verif_trace::record_binary("strict.compose", self, rhs, r.as_ref(), true);
+            return r;
+        }
         self.compose(rhs)
     }
 }
@@ -255,6 +267,12 @@ where
 {
     type Output = OpenHypergraph<K, O, A>;
     fn bitor(self, rhs: &OpenHypergraph<K, O, A>) -> OpenHypergraph<K, O, A> {
+        #[cfg(feature = "verif-hooks")]
+        if crate::verif_trace::enabled() {
+            let r = self.tensor(rhs);
+            crate::verif_trace::record_binary("strict.tensor", self, rhs, Some(&r), false);
+            return r;
+        }
         self.tensor(rhs)
     }
 }
